@@ -345,6 +345,11 @@ pub fn run_decisions(w: &World, decisions: &[Decision]) -> History {
 /// Bounded-exhaustive exploration of scheduler choices (no duplication). Calls `visit` with every
 /// maximal history found; states are deduplicated by hash. Returns (states, histories, truncated).
 pub fn explore_exhaustive(w: &World, state_budget: usize, max_depth: usize, visit: &mut dyn FnMut(&History)) -> (usize, usize, bool) {
+    explore_exhaustive_capped(w, state_budget, max_depth, usize::MAX, visit)
+}
+
+/// As `explore_exhaustive`, stopping (truncated) after `max_histories` maximal histories.
+pub fn explore_exhaustive_capped(w: &World, state_budget: usize, max_depth: usize, max_histories: usize, visit: &mut dyn FnMut(&History)) -> (usize, usize, bool) {
     struct Frame {
         st: SimState,
         decisions: Vec<Decision>,
@@ -354,7 +359,7 @@ pub fn explore_exhaustive(w: &World, state_budget: usize, max_depth: usize, visi
     let mut histories = 0;
     let mut truncated = false;
     while let Some(f) = stack.pop() {
-        if seen.len() >= state_budget {
+        if seen.len() >= state_budget || histories >= max_histories {
             truncated = true;
             break;
         }
